@@ -186,6 +186,8 @@ func verifNodes(tier int) []JsonNode {
 		jsonArray{jsonArray{jsonNumber(1), jsonNumber(2)}}, jsonArray{jsonArray{jsonNumber(2), jsonNumber(1)}},
 		jsonObject{"a": jsonObject{"b": jsonObject{"c": jsonObject{"x": jsonNumber(1), "y": jsonNumber(2)}}}},
 		jsonObject{"a": jsonObject{"b": jsonObject{"c": jsonObject{"y": jsonNumber(2), "z": jsonNumber(3)}}}},
+		// a keyed member with two fields that change at once
+		jsonArray{jsonObject{"a": jsonNumber(1), "x": jsonNumber(1), "y": jsonNumber(1)}}, jsonArray{jsonObject{"a": jsonNumber(1), "x": jsonNumber(2), "y": jsonNumber(2)}},
 		// members of different JSON types that a set must tell apart
 		jsonArray{jsonObject{"a": jsonArray{}}}, jsonArray{jsonObject{"a": jsonString("")}}, jsonArray{jsonObject{"a": jsonObject{}}},
 		jsonArray{jsonObject{"a": jsonNumber(1)}}, jsonArray{jsonArray{jsonString("a"), jsonNumber(1)}}, jsonArray{jsonArray{jsonNumber(1), jsonString("a")}},
@@ -196,7 +198,7 @@ func verifNodes(tier int) []JsonNode {
 }
 
 func verifMetadataSets() [][]Metadata {
-	return [][]Metadata{nil, {SET}, {MULTISET}, {Setkeys("a")}, {MERGE}, {SetPrecision(0.5)}}
+	return [][]Metadata{nil, {SET}, {MULTISET}, {Setkeys("a")}, {MERGE}, {SetPrecision(0.5)}, {SET, Setkeys("a")}}
 }
 
 func verifShow(x interface{}) string {
